@@ -4,7 +4,7 @@
 From Coq Require Import List NArith Bool Lia ZifyNat ZifyN ZifyBool.
 Import ListNotations.
 Require Import Celma.Common.Res Celma.FixedStr.FsBase Celma.FixedStr.FsModel
-  Celma.FixedStr.FsLemmas Celma.FixedStr.FsSafe Celma.FixedStr.FsSafeObs.
+  Celma.FixedStr.FsLemmas Celma.FixedStr.FsSafe Celma.FixedStr.FsSafeObs Celma.FixedStr.FsIter.
 Local Open Scope N_scope.
 
 (** size of a string argument in memory (characters and terminator) *)
@@ -62,6 +62,7 @@ Definition op_nums (x : op) : list N :=
   | OCopy c p => [c; p]
   | OAt i => [i]
   | OFind _ k pos => pos :: fneedle_nums k
+  | OIt _ pos _ v => [pos; v]
   end.
 
 (** all of them are values of size_t *)
@@ -190,6 +191,10 @@ Proof.
   (* find family *)
   - apply good_obs_ok; try assumption. apply find_op_okr; try assumption.
     destruct k; cbn [fneedle_ok]; unb HB; cbn [pre_A] in Hpre; auto; try lia.
+  (* iterator stepping *)
+  - apply good_obs_ok; try assumption.
+    destruct (it_step_index_valid L HL s rev pos k v Hs) as (i & c & E & _); [assumption|].
+    rewrite E. apply okr_ok.
 Qed.
 
 (** a scripted history: steps outside the caller contract are skipped (the
